@@ -246,6 +246,23 @@ def _lrepr_nil(_: None, **__) -> str:
     return "nil"
 
 
+# The escape sequences understood by the reader inside string literals. Every other
+# character is printed as itself, which the reader reads back as itself.
+_STR_ESCAPES = str.maketrans(
+    {
+        '"': '\\"',
+        "\\": "\\\\",
+        "\a": "\\a",
+        "\b": "\\b",
+        "\f": "\\f",
+        "\n": "\\n",
+        "\r": "\\r",
+        "\t": "\\t",
+        "\v": "\\v",
+    }
+)
+
+
 @lrepr.register(str)
 def _lrepr_str(
     o: str, human_readable: bool = False, print_readably: bool = PRINT_READABLY, **_
@@ -254,8 +271,7 @@ def _lrepr_str(
         return o
     if print_readably is None or print_readably is False:
         return o
-    escaped = o.encode("unicode_escape").replace(b'"', rb"\"").decode("utf-8")
-    return f'"{escaped}"'
+    return f'"{o.translate(_STR_ESCAPES)}"'
 
 
 @lrepr.register(list)
